@@ -12,6 +12,11 @@ CATS = [('Subscriptions', 'Streaming'), ('Food', 'Coffee'), ('Transport', 'Rides
 TAGS = ['recurring', 'business', 'fun', 'essential', 'income', 'transfer', 'investment', 'refund']
 
 
+# comment lines that look like something else or end in characters a sloppy line reader trips over
+TRICKY_COMMENTS = ['# exported from C:\\Users\\me\\budget\\', '# trailing backslash \\', '#', '#=', '# a = b', '# [Fake Section]',
+                   '# priority: high', '# "unbalanced', "# it's", '# tab\there', '# caf\u00e9 \u2013 notes', '#\\', '# filter:', '# x: y: z',
+                   '# line with trailing blanks   ', '## double', '#!shebang-like', '# 100% (percent) {braces} [brackets]']
+
 # ----------------------------------------------------------------------------- legacy CSV
 
 def gen_csv_rules(rng, n, safe=True):
@@ -203,7 +208,7 @@ def render_rules(model, lay, rng):
 
     def noise():
         if rng.random() < lay['comments']:
-            lines.append(rng.choice(['# note', '  # indented comment', '#[NotARule]', '# match: contains("X")']))
+            lines.append(rng.choice(['# note', '  # indented comment', '#[NotARule]', '# match: contains("X")'] + TRICKY_COMMENTS))
         if rng.random() < lay['blanks']:
             lines.append(rng.choice(['', '   ', '\t']))
 
@@ -299,7 +304,7 @@ def gen_views_model(rng, n, cats=None, simple=False):
         while name in names:
             name += ' %d' % k
         names.add(name)
-        model['views'].append({'name': name, 'filter': flt, 'description': rng.choice([None, None, 'A view']),
+        model['views'].append({'name': name, 'filter': flt, 'description': rng.choice([None, None, 'A view', 'Path C:\\tmp\\', 'has: colon = equals', '[bracketed]', '# not a comment']),
                                'vars': local})
     return model
 
@@ -310,7 +315,7 @@ def render_views(model, lay, rng):
 
     def noise():
         if rng.random() < lay['comments']:
-            lines.append(rng.choice(['# note', '  # indented', '# filter: total > 1']))
+            lines.append(rng.choice(['# note', '  # indented', '# filter: total > 1'] + TRICKY_COMMENTS))
         if rng.random() < lay['blanks']:
             lines.append(rng.choice(['', '  ']))
 
